@@ -55,8 +55,7 @@ SliceRaw(s) ==
           Triples(D) == UNION { UNION { { [base EXCEPT ![fs[j]] = y, ![fs[k]] = z] : y \in D[fs[j]], z \in D[fs[k]] }
                                         : k \in (j + 1)..n } : j \in (s.i + 1)..n }
       IN  {base}
-          \cup (IF Tier = "quick" THEN (IF inM THEN Pairs(M) ELSE {})
-                ELSE Pairs(F) \cup Triples(F))
+          \cup (IF Tier = "quick" THEN Pairs(F) ELSE Pairs(F) \cup Triples(F))
 Slice(s) == { q \in { Fix(a) : a \in SliceRaw(s) } : ValidPacket(q) }
 
 Vector(q) == [p |-> q, enc |-> Enc(q), size |-> SizeOf(q)]
@@ -86,10 +85,10 @@ GenericEdits(m) ==
       \cup { e("trailing", bs \o << b >>) : b \in {0, 255} }
       \cup { e("insert", SubSeq(bs, 1, i) \o << b >> \o SubSeq(bs, i + 1, n)) : i \in 0..n, b \in {0, 128, 255} }
       \cup { e("delete", SubSeq(bs, 1, i - 1) \o SubSeq(bs, i + 1, n)) : i \in 1..n }
-(* thorough: besides the hand-picked seeds, every small packet that deviates *)
-(* from the default in one field                                            *)
+(* besides the hand-picked seeds, every small packet that deviates from the *)
+(* default in one field                                                     *)
 SeedsFor(g) ==
-  IF Tier = "quick" \/ Trivial(g) THEN Seeds(g)
+  IF Trivial(g) THEN Seeds(g)
   ELSE Seeds(g) \cup { q \in { Fix(a) : a \in OneWise(Def(g.k, g.v, g.w), Alt(g.k, g.v, g.w, "med")) } :
                          ValidPacket(q) /\ SizeOf(q) <= 90 }
 Structural(m) == m.op \notin {"truncate", "flip", "insert", "delete", "trailing", "seed", "flags"}
